@@ -245,10 +245,9 @@ func newStack(timeout time.Duration) *stack {
 	if err != nil {
 		panic(err)
 	}
-	// a port nothing listens on (the dead node)
-	lnD, _ := net.Listen("tcp", "127.0.0.1:0")
-	deadAddr := lnD.Addr().String()
-	lnD.Close()
+	// the dead node: a port nothing listens on.  Not an ephemeral port that was just closed - a
+	// parallel harness process could be handed the same port for one of its proxy nodes.
+	deadAddr := "127.0.0.1:1"
 
 	csB := cluster.NewState(&cluster.Node{ID: "node-b", ProxyAddr: lnB.Addr().String(), AdminAddr: "127.0.0.1:1"}, log.NewNopLogger())
 	mgrB := upstream.NewLoadBalancedManager(csB, nil)
